@@ -214,6 +214,61 @@ async def conditional_case(context):
     return None
 
 
+async def step_restore_case(context):
+    """resuming a loop instance (what recovery does): a real LoopCombinatorStep runs 4..15 iterations with tokens and provenance in the
+    database; a fresh step is restored on the (shuffled) output tokens that have to be produced again, from iteration `first_lost` on;
+    replaying the input of that iteration yields the token numbered `first_lost` — numerically, also past iteration 9"""
+    from streamflow.core import utils
+    from streamflow.core.workflow import Workflow
+    from streamflow.workflow.combinator import LoopCombinator
+    from streamflow.workflow.step import LoopCombinatorStep
+    from streamflow.workflow.token import IterationTerminationToken, TerminationToken
+
+    iterations = rng.choice([4, 9, 11, 12, 15])
+    wf = Workflow(context=context, name=utils.random_name(), config={})
+    in_port, out_port = wf.create_port(), wf.create_port()
+    comb = LoopCombinator(name="/loop-combinator", workflow=wf)
+    comb.add_item("i1")
+    step = wf.create_step(cls=LoopCombinatorStep, name="/loop-combinator", combinator=comb)
+    step.add_input_port("i1", in_port)
+    step.add_output_port("i1", out_port)
+    await wf.save(context.database)
+    task = asyncio.create_task(step.run())
+    first = Token(value=100, tag="0")
+    await first.save(context.database, port_id=in_port.persistent_id)
+    in_port.put(first)
+    in_port.put(TerminationToken())
+    inputs, outputs = {"0": first}, {}
+    for k in range(iterations + 1):
+        out = await asyncio.wait_for(out_port.get("driver"), 30)
+        if out.tag != f"0.{k}":
+            task.cancel()
+            return {"failure": "the loop combinator step numbers an iteration wrongly", "iteration": k, "tag": out.tag}
+        outputs[out.tag] = out
+        if k < iterations:
+            back = Token(value=out.value + 1, tag=out.tag)
+            await back.save(context.database, port_id=in_port.persistent_id)
+            await context.database.add_provenance(inputs=[out.persistent_id], token=back.persistent_id)
+            inputs[back.tag] = back
+            in_port.put(back)
+    in_port.put(IterationTerminationToken(tag="0"))
+    await asyncio.wait_for(task, 30)
+    for first_lost in sorted({1, rng.randint(2, min(9, iterations)), min(9, iterations), max(1, iterations - 2), iterations}):
+        comb2 = LoopCombinator(name="/loop-combinator-r", workflow=wf)
+        comb2.add_item("i1")
+        step2 = LoopCombinatorStep(name=f"/loop-combinator-r{first_lost}-{rng.randint(0, 10 ** 6)}", workflow=wf, combinator=comb2)
+        lost = [t for tag, t in outputs.items() if int(tag.split(".")[-1]) >= first_lost]
+        rng.shuffle(lost)
+        await step2.restore({"i1": lost})
+        produced = []
+        async for schema in comb2.combine("i1", inputs[f"0.{first_lost - 1}"]):
+            produced.append(schema["i1"]["token"].tag)
+        if produced != [f"0.{first_lost}"]:
+            return {"failure": "a loop resumed at an iteration replays it under another iteration number", "iterations": iterations, "resumed_at": first_lost,
+                    "lost_tokens": [t.tag for t in lost], "replayed_as": produced, "expected": [f"0.{first_lost}"]}
+    return None
+
+
 async def loop_step_search(n):
     import tempfile
 
@@ -223,7 +278,7 @@ async def loop_step_search(n):
     context = build_context({"database": {"type": "default", "config": {"connection": ":memory:"}}, "path": workdir})
     try:
         for _ in range(n):
-            bad = await loop_step_case(context) or await loop_output_run_case(context) or await loop_output_run_case(context) or await conditional_case(context)
+            bad = await loop_step_case(context) or await loop_output_run_case(context) or await loop_output_run_case(context) or await conditional_case(context) or await step_restore_case(context)
             if bad:
                 return bad
     finally:
